@@ -41,6 +41,8 @@ r"""Cherenkov photon density and angle determination class.
 
 """
 
+import os
+
 import dask.bag as db
 import numpy as np
 from dask.diagnostics import ProgressBar
@@ -70,6 +72,10 @@ class CphotAng:
         self.detector_altitude = detector_altitude
         self.dtype = np.float32
         """numerical data type"""
+        # verification hook (off unless NUSPACESIM_VERIF_DTYPE=float64): run the unchanged
+        # kernel in double precision so logic errors can be told from rounding noise
+        if os.environ.get("NUSPACESIM_VERIF_DTYPE") == "float64":
+            self.dtype = np.float64
 
         self.wave1 = np.array(
             [
